@@ -1074,6 +1074,21 @@ fn rule_c09(ctx: &Ctx, out: &mut Vec<Violation>) {
             }
         }
     }
+    // The ID under which a message is delivered is the ID that Publish returned for it, at its
+    // position in the request (the token in the payload says which request and which position).
+    {
+        let by_token: HashMap<&str, &str> = m.published.iter().filter(|p| !p.token.is_empty()).filter_map(|p| p.msg_id.as_deref().map(|id| (p.token.as_str(), id))).collect();
+        let mut reported: HashSet<&str> = HashSet::new();
+        for d in m.deliveries.iter() {
+            if let Some(id) = by_token.get(d.recv.token.as_str()) {
+                if *id != d.recv.msg_id.as_str() && reported.insert(d.recv.token.as_str()) {
+                    let detail = format!("message with token {} was answered with ID {} by Publish but is delivered with ID {} (on {})", d.recv.token, id, d.recv.msg_id, d.sub);
+                    out.push(v("C08.request_order", "id_of_message", detail.clone()));
+                    out.push(v("C09.fields", "message_id", detail));
+                }
+            }
+        }
+    }
     // A push body that cannot be read back (not JSON, data not standard base64, no message id)
     // did not deliver the published bytes.
     for p in m.posts.values() {
